@@ -264,11 +264,25 @@ type c12World struct {
 	quiet       bool
 	skip        map[int]bool // ops that panicked: not re-executed
 	undone      map[int]bool // ops whose UNSPECIFIED second variant was observed
+
+	// names outside the fixed pools that the history has used (c12_r7.go): the
+	// audit looks up the name the call just addressed from every scope, two more
+	// of these names in rotation, and all of them every 64th audit and whenever a
+	// scope has just been copied
+	longVals   []string
+	longTypes  []string
+	longSeen   map[string]bool
+	hotVal     string
+	hotType    string
+	sweepNext  bool
+	sweeps     int
+	stmtCalls  int
+	churnCalls int
 }
 
 func c12NewWorld(verbose bool) *c12World {
 	w := &c12World{scopes: map[int]*c12Scope{}, byReal: map[*env.Env]*c12Scope{}, ptr: new(int64), verbose: verbose,
-		tags: map[string]int{}, seenSig: map[string]bool{}, skip: map[int]bool{}, undone: map[int]bool{}}
+		tags: map[string]int{}, seenSig: map[string]bool{}, skip: map[int]bool{}, undone: map[int]bool{}, longSeen: map[string]bool{}}
 	for i := range w.exts {
 		w.exts[i] = &c12Ext{id: i, vals: map[string]reflect.Value{}, mvals: map[string]interface{}{}, types: map[string]reflect.Type{}}
 	}
@@ -322,6 +336,9 @@ func (w *c12World) value(code int) interface{} {
 }
 
 func (w *c12World) renderVal(v interface{}) string {
+	if ro, ok := v.(c12RO); ok {
+		return w.renderVal(ro.v) + " (read out of an unexported struct field)"
+	}
 	if e, ok := v.(*env.Env); ok && e != nil {
 		if s := w.byReal[e]; s != nil {
 			return "s" + strconv.Itoa(s.h)
@@ -390,6 +407,7 @@ func c12SetDiff(got []string, want map[string]bool) string {
 func (w *c12World) audit() (class, detail string) {
 	w.audits++
 	useValue := w.audits%2 == 0
+	valNames, typeNames := w.auditNames()
 	for _, h := range w.order {
 		s := w.scopes[h]
 		p := c12Protect(func() {
@@ -413,7 +431,7 @@ func (w *c12World) audit() (class, detail string) {
 				return
 			}
 			// value lookups
-			for _, n := range c12ValNames {
+			for _, n := range valNames {
 				var got interface{}
 				var err error
 				w.obsCalls++
@@ -425,12 +443,42 @@ func (w *c12World) audit() (class, detail string) {
 							class, detail = "Get", fmt.Sprintf("s%d.GetValue(%q) returned an invalid reflect.Value without error", h, n)
 							return
 						}
+						if !rv.CanInterface() {
+							class, detail = "Get-readonly", fmt.Sprintf("s%d.GetValue(%q) returned, without an error, a reflect.Value that was read out of an unexported struct field (Interface() panics on it)", h, n)
+							return
+						}
 						got = rv.Interface()
 					}
 				} else {
 					got, err = s.real.Get(n)
 				}
 				wv, ok := s.lookupVal(n)
+				if _, ro := wv.(c12RO); ro {
+					// the nearest supplier is a lookup object answering a value reflect forbids
+					// to hand out: the lookup is an invalid request - an error (c12_r7.go)
+					fn := "Get"
+					if useValue {
+						fn = "GetValue"
+					}
+					if err == nil {
+						class, detail = "Get-readonly", fmt.Sprintf("s%d.%s(%q) succeeded, but the nearest supplier of the name is a lookup object answering a reflect.Value read out of an unexported struct field", h, fn, n)
+						return
+					}
+					// both observers are asked about such a name in every audit
+					w.obsCalls++
+					if useValue {
+						fn = "Get"
+						_, err = s.real.Get(n)
+					} else {
+						fn = "GetValue"
+						_, err = s.real.GetValue(n)
+					}
+					if err == nil {
+						class, detail = "Get-readonly", fmt.Sprintf("s%d.%s(%q) succeeded, but the nearest supplier of the name is a lookup object answering a reflect.Value read out of an unexported struct field", h, fn, n)
+						return
+					}
+					continue
+				}
 				switch {
 				case ok && err != nil:
 					class, detail = "Get", fmt.Sprintf("s%d.Get(%q) fails with %q, the chain binds it to %s", h, n, err.Error(), w.renderVal(wv))
@@ -444,7 +492,7 @@ func (w *c12World) audit() (class, detail string) {
 				}
 			}
 			// type lookups
-			for _, n := range c12AuditTypeNames {
+			for _, n := range typeNames {
 				w.obsCalls++
 				got, err := s.real.Type(n)
 				wt, ok := s.lookupType(n)
@@ -540,10 +588,15 @@ func (w *c12World) exec(i int, op *c12Op) {
 	expectFail := false // the model says the request is invalid
 	mutated := false
 	var undo func() // second variant of an UNSPECIFIED mutation
+	label := op.K   // the operation's part of a violation signature
+	if op.K == "Stmt" || op.K == "Churn" {
+		label = c12R7Label(op)
+	}
 	resFail := func(class, detail string) {
-		w.fail(i, op.K+":"+class, call+": "+detail)
+		w.fail(i, label+":"+class, call+": "+detail)
 		w.dead = true
 	}
+	w.noteNames(op)
 
 	switch op.K {
 	case "NewRoot":
@@ -739,29 +792,44 @@ func (w *c12World) exec(i int, op *c12Op) {
 		call = fmt.Sprintf("s%d.%s(%q)", op.S, fn, op.N)
 		var got interface{}
 		var err error
+		roGot := false
 		w.apiCalls++
 		pan = c12Protect(func() {
 			if op.F == 1 {
 				var rv reflect.Value
 				rv, err = s.real.GetValue(op.N)
 				if err == nil {
-					got = rv.Interface()
+					if roGot = rv.IsValid() && !rv.CanInterface(); !roGot {
+						got = rv.Interface()
+					}
 				}
 			} else {
 				got, err = s.real.Get(op.N)
 			}
 		})
 		wv, ok := s.lookupVal(op.N)
-		expectFail = !ok
+		_, roWant := wv.(c12RO)
+		expectFail = !ok || roWant
 		if pan != nil {
 			break
 		}
 		if err != nil {
 			outcome = c12ErrStr(err)
+		} else if roGot {
+			outcome = "a read-only reflect.Value"
 		} else {
 			outcome = w.renderVal(got)
 		}
 		switch {
+		case roWant:
+			// a lookup object answers a value reflect forbids to hand out: no Get can
+			// "return the nearest enclosing binding" - an invalid request (c12_r7.go)
+			w.tags["get:readonly-from-lookup"]++
+			if err == nil {
+				resFail("readonly-value-answered", "succeeded, but the nearest supplier of the name is a lookup object answering a reflect.Value read out of an unexported struct field")
+			}
+		case roGot:
+			resFail("result", "returned, without an error, a reflect.Value read out of an unexported struct field")
 		case ok && err != nil:
 			resFail("unexpected-error", fmt.Sprintf("%s, the nearest binding is %s", err.Error(), w.renderVal(wv)))
 		case !ok && err == nil:
@@ -774,23 +842,33 @@ func (w *c12World) exec(i int, op *c12Op) {
 		var rv reflect.Value
 		var err error
 		var got interface{}
-		derefOK := false
+		derefOK, roAddr := false, false
 		w.apiCalls++
 		pan = c12Protect(func() {
 			rv, err = s.real.Addr(op.N)
 			if err == nil && rv.IsValid() && rv.Kind() == reflect.Ptr && !rv.IsNil() {
-				got = rv.Elem().Interface()
-				derefOK = true
+				if roAddr = !rv.CanInterface() || !rv.Elem().CanInterface(); !roAddr {
+					got = rv.Elem().Interface()
+					derefOK = true
+				}
 			}
 		})
 		wv, ok := s.lookupVal(op.N)
-		expectFail = !ok
+		_, roWant := wv.(c12RO)
+		expectFail = !ok || roWant
 		if pan != nil {
 			break
 		}
 		outcome = c12ErrStr(err)
 		// UNSPECIFIED: which bindings are addressable; an error is always accepted.
 		switch {
+		case roWant:
+			w.tags["addr:readonly-from-lookup"]++
+			if err == nil {
+				resFail("readonly-value-answered", "returned an address, but the nearest supplier of the name is a lookup object answering a reflect.Value read out of an unexported struct field")
+			}
+		case roAddr:
+			resFail("result", "returned, without an error, the address of a value read out of an unexported struct field (it cannot be read through)")
 		case !ok && err == nil:
 			resFail("no-error", "returned an address for a name no enclosing scope binds")
 		case ok && err == nil && !derefOK:
@@ -1077,6 +1155,13 @@ func (w *c12World) exec(i int, op *c12Op) {
 			call += c12FormSuffix[op.F]
 			w.tags["ext:"+c12FormTag[op.F]]++
 			x.vals[op.N] = c12BoxValue(v, op.F)
+		} else if op.F >= c12FormROField && op.F <= c12FormROStruct {
+			// the lookup object answers a reflect.Value read out of an unexported struct field (c12_r7.go)
+			call += c12FormSuffix[op.F]
+			w.tags["ext:"+c12FormTag[op.F]]++
+			x.vals[op.N] = c12ReadOnlyValue(v, op.F)
+			x.mvals[op.N] = c12RO{v: v}
+			break
 		} else if v == nil && i%2 == 1 {
 			// a lookup object may answer the zero reflect.Value without an error: that reads as nil too
 			call = fmt.Sprintf("ext%d.values[%q] = reflect.Value{}", op.X, op.N)
@@ -1100,14 +1185,28 @@ func (w *c12World) exec(i int, op *c12Op) {
 		x := w.exts[op.X]
 		call = fmt.Sprintf("delete(ext%d.types, %q)", op.X, op.N)
 		delete(x.types, op.N)
+	case "Stmt":
+		// one script statement executed by vm.Execute on the addressed scope (c12_r7.go)
+		var fc, fd string
+		call, outcome, pan, expectFail, mutated, undo, fc, fd = w.execStmt(op, s)
+		if fc != "" && pan == nil {
+			resFail(fc, fd)
+		}
+	case "Churn":
+		// many short-lived children / copies of the addressed scope (c12_r7.go)
+		var fc, fd string
+		call, outcome, pan, fc, fd = w.execChurn(op, s)
+		if fc != "" && pan == nil {
+			resFail(fc, fd)
+		}
 	default:
 		panic("c12: unknown op " + op.K)
 	}
 
 	if pan != nil {
 		w.logf("%s  => PANIC %s", call, pan.msg)
-		w.tags["op:"+op.K+":panic"]++
-		w.fail(i, op.K+":"+pan.sig(), call+": panic: "+pan.msg)
+		w.tags["op:"+label+":panic"]++
+		w.fail(i, label+":"+pan.sig(), call+": panic: "+pan.msg)
 		if !expectFail {
 			// the call should have succeeded; what it did before panicking is unknown
 			w.dead = true
@@ -1129,11 +1228,11 @@ func (w *c12World) exec(i int, op *c12Op) {
 		}
 		w.after = nil
 		cls := "ok"
-		if expectFail && (op.K == "Define" || op.K == "DefineGlobal" || op.K == "Set" || op.K == "NewModule" || op.K == "DefineType" || op.K == "DefineGlobalType" || op.K == "Get" || op.K == "Type" || op.K == "Addr") {
+		if expectFail && (op.K == "Stmt" || op.K == "Define" || op.K == "DefineGlobal" || op.K == "Set" || op.K == "NewModule" || op.K == "DefineType" || op.K == "DefineGlobalType" || op.K == "Get" || op.K == "Type" || op.K == "Addr") {
 			cls = "err"
 			w.failedReq++
 		}
-		w.tags["op:"+op.K+":"+cls]++
+		w.tags["op:"+label+":"+cls]++
 	}
 	if mutated {
 		w.mutations++
@@ -1160,7 +1259,12 @@ func (w *c12World) exec(i int, op *c12Op) {
 		if expectFail || pan != nil {
 			kind = ":state-changed-by-failing-call:"
 		}
-		w.fail(i, op.K+kind+class, "after "+call+": "+detail)
+		sig := label + kind + class
+		if class == "Get-readonly" {
+			// the call only made the state visible; the defect is the observer's
+			sig = "audit:Get-readonly"
+		}
+		w.fail(i, sig, "after "+call+": "+detail)
 		w.dead = true
 	}
 }
@@ -1381,6 +1485,10 @@ func (g *c12Gen) next() c12Op {
 	sc := g.w.scopes[s]
 	canGrow := len(g.w.order) < g.maxScopes
 	base := c12Op{S: s, A: -1, X: -1, New: -1}
+	if r.Intn(12) == 0 {
+		// the script spelling of define / delete / delete-nearest / lookup (c12_r7.go)
+		return g.stmtOp(s, sc)
+	}
 	for {
 		switch k := r.Intn(100); {
 		case k < 3:
@@ -1411,7 +1519,7 @@ func (g *c12Gen) next() c12Op {
 		case k < 42:
 			return g.valueOp("Set", s)
 		case k < 46:
-			base.K, base.N, base.F = "Get", c12ValNames[r.Intn(len(c12ValNames))], r.Intn(2)
+			base.K, base.N, base.F = "Get", g.roName(sc, c12ValNames[r.Intn(len(c12ValNames))]), r.Intn(2)
 			return base
 		case k < 52:
 			base.K, base.N = "Delete", g.pickName()
@@ -1453,7 +1561,7 @@ func (g *c12Gen) next() c12Op {
 			base.K, base.X = "SetExternalLookup", r.Intn(4)-1
 			return base
 		case k < 94:
-			base.K, base.N = "Addr", g.pickName()
+			base.K, base.N = "Addr", g.roName(sc, g.pickName())
 			return base
 		case k < 95:
 			base.K = "String"
@@ -1725,7 +1833,18 @@ func c12Report(c *wk.Case, kind string, ops []c12Op, w *c12World) {
 			// shrinking is bounded per process and signature: a known finding hit by
 			// thousands of random histories must not dominate the run
 			c12Rep.shrunk[f.sig]++
-			min = c12Shrink(min, f.sig, 100000)
+			budget := 100000
+			if kind == "long" || len(min) > 300 {
+				// a long history (c12_r7.go): what such a history shows usually needs its
+				// length (nothing can be removed, and finding that out costs a budget of any
+				// size): one witness per process and signature is shrunk, with a smaller
+				// (logical) budget
+				c12Rep.shrunk[f.sig] += 2
+				if budget = 40 * len(min); budget > 30000 {
+					budget = 30000
+				}
+			}
+			min = c12Shrink(min, f.sig, budget)
 			tail = 60
 		}
 		vw := c12Run(min, true)
@@ -1777,10 +1896,20 @@ func init() {
 					"Values reach Define/DefineGlobal/Set in 8 forms: interface value, reflect.Value, addressable reflect.Value, reflect.Value of kind Interface (element of a map[string]interface{}; pointee of a *interface{}) - " +
 					"the model binds the carried value whatever the form, so a module bound through an interface-kind reflect.Value must be a namespace for path lookup like any other - and read-only reflect.Values " +
 					"(read out of an unexported struct field, plain / addressable / struct-typed), which must be refused with an error and an unchanged state; external lookups answer boxed values too. " +
+					"Round 7: external lookups also answer read-only reflect.Values (all three shapes, plain values and modules): every lookup of a name whose nearest supplier is such an answer - Get, GetValue, Addr, " +
+					"the script uses `n`, `[n]`, `func() { return n }()`, `&n` run by vm.Execute on the scope - must fail with an error, without a panic and with every scope unchanged; a path lookup treats the answer as a non-module. " +
+					"Script spellings: one-statement scripts `var n = v`, `delete(\"n\")`, `delete(\"n\", false)`, `delete(\"n\", true)` and the four uses of a name are executed by vm.Execute on a scope as operations of the history (model: Define, Delete, DeleteGlobal, lookup), in the random and long phases. " +
+					"phase long: PRNG histories of 300-2600 calls (thorough: up to 4600) concentrated on ONE scope of a chain of 2-4 scopes (root, middle or leaf; enclosing scopes bind the same names, sometimes a lookup object supplies one), built from segments whose sizes sit on and next to the powers of two 8..1024: " +
+					"define/delete cycles on 1-3 names (Define, DefineValue forms, DefineGlobal from below, `var`; Delete, DeleteGlobal from the scope and from below, `delete`), fill-and-drain of up to 1100 distinct names (first-in-first-out, last-in-first-out, shuffled, complete or down to a rest, repeated with the same or new names), " +
+					"a sliding window of W live bindings, PRNG mixes of define/set/delete/delete-nearest/get/addr/String/path lookup with unbound deletes, Set storms on one binding whose nearest holder moves, type tables of up to 300 names, and 'churn' calls that create up to 1100 short-lived children, Copies or DeepCopies of the scope, " +
+					"write to each and drop it; Copy/DeepCopy snapshots are taken between and inside segments (the history may go on on the snapshot) and at the end, followed by a delete-nearest drain. In these histories the audit after every call also looks up, from every live scope, the name just addressed and two more names in rotation, " +
+					"and every name the history ever used on every 64th audit and right after each copy; the symbol lists of every scope are compared in full after every call as everywhere. " +
 					"A history is non-trivial when it performed >=2 state changes on >=2 scopes; distinct = distinct operation list.",
 				Assumptions: []string{
 					"values are compared by Go interface equality (pool: nil, int64, string, bool, float64, one pointer, *env.Env); reflect.Values handed to the API are always valid",
-					"a reflect.Value that reflect marks read-only (obtained through an unexported struct field) cannot be returned by Get, so binding one is taken to be an invalid request (error, state unchanged); external lookups never answer such values",
+					"a reflect.Value that reflect marks read-only (obtained through an unexported struct field) cannot be returned by Get, so binding one is taken to be an invalid request (error, state unchanged); when an external lookup answers one, the lookup of that name is the invalid request (error from Get/GetValue/Addr/a script use, state unchanged, no panic): the answer shadows the enclosing scopes like every other answer of a lookup object, falling through to them is not accepted; Set/DeleteGlobal of such a name are accepted both ways like for every name a nearer lookup object supplies; for path lookup the answer is a non-module",
+					"script spellings (a reading of the language, not of the statement): vm.Execute(scope, nil, src) runs the statements of src in that very scope; `var n = <literal>` is scope.Define(n, value of the literal) with integer literals int64 and 2.5 a float64; `delete(\"n\")` and `delete(\"n\", false)` are scope.Delete(n); `delete(\"n\", true)` is scope.DeleteGlobal(n); an expression using the name n looks n up from the scope (a function literal's body: from a fresh child of it). `n = v` is not used: its set-or-define meaning is not part of the statement. What `&n` points at is not compared, and `&n` failing on a bound name is accepted (as Addr's 'unaddressable')",
+					"long histories: a scope has no memory - the outcome of a call depends on the current content of the chain only, however many calls, bindings, removals, copies or children came before",
 					"external lookups are harness objects holding plain (undotted) names; they answer plain values and modules (existing scopes)",
 					"accepted both ways: Set/DeleteGlobal of a name an external lookup of a nearer scope supplies; path lookup whose nearest first-element binding is a non-module while an outer module exists, or whose first element an external lookup answers with a module (three readings of the first element: nearest binding / nearest table module / nearest module with lookups; one reading must explain a path, its one-element prefix and its two-element extensions in one state); later path elements that only the module's external lookup or parent chain could supply; Addr returning 'unaddressable'",
 				},
@@ -1789,6 +1918,7 @@ func init() {
 					{Name: "enum", Cases: c12EnumCases(tier), Chunk: c12EnumChunk(tier), Exhaust: true, TimeoutS: 900},
 					{Name: "random", Cases: nRand, Chunk: c12RandChunk(tier), TimeoutS: 900},
 					{Name: "paths", Cases: nPaths, Chunk: 4 * c12RandChunk(tier), Jobs: 4, MemMB: 3072, TimeoutS: 900},
+					{Name: "long", Cases: c12LongCases(tier), Chunk: c12LongChunk(tier), TimeoutS: 900},
 				},
 			}
 		},
@@ -1825,6 +1955,8 @@ func init() {
 					}
 					c.Tag("enum:types")
 				}
+			case "long":
+				c12RunLong(c)
 			case "paths":
 				c.Begin(map[string]interface{}{"paths": c.Index})
 				ops, w := c12GenerateWith(c.Rng, 30+c.Rng.Intn(61), 10, true)
